@@ -667,7 +667,25 @@ def r17g(F):
 		out.append(Result('17.g', False, 'floor:unlink-sites', 'only %d call sites of remove_channel_in_nodes[_callback] (expected >= 3)' % n, n))
 	return out
 
+def r17h(F):
+	"""replacing a known channel after chain validation is remove + add: the old entry is unlinked from its nodes on EVERY path to the overwrite,
+	because the code below links the (new) channel into both nodes unconditionally - skipping the unlink lists the SCID twice, so the graph
+	depends on how often the same valid announcement was delivered"""
+	out = []
+	fn = 'lightning::routing::gossip::NetworkGraph::add_channel_between_nodes'
+	fu = F.func(fn)
+	unlink = set(sites_call(fu, ['lightning::routing::gossip::NetworkGraph::remove_channel_in_nodes']))
+	over = {b for b, ci in fu.calls() if norm(ci.get('f') or '').endswith('OccupiedEntry::get_mut') and b in fu.reach([0])}
+	if not unlink or not over:
+		return [Result('17.h', False, 'anchor:replace-arm', 'add_channel_between_nodes: the unlink call / the overwrite of the occupied entry were not found (%d / %d)' % (len(unlink), len(over)), where=F.where(fn))]
+	out += P5_must_pass(F, '17.h', fu, [0], sorted(over), unlink, 'remove_channel_in_nodes before the occupied entry is overwritten', key='unlink-before-overwrite')
+	# and the linking below is unconditional for both nodes (so remove + add is the only consistent pairing)
+	pushes = [b for b, ci in fu.calls() if norm(ci.get('f') or '').endswith('Vec::push') and b in fu.reach([0])]
+	out.append(Result('17.h', len(pushes) >= 1, ('ok:' if len(pushes) >= 1 else 'shape:') + 'nodes-linked', 'add_channel_between_nodes links the channel id into its nodes (%d push site(s))' % len(pushes), len(pushes), where=F.where(fn)))
+	return out
+
 RULES = [
+	('17.h', 'replacing a chain-validated channel always unlinks the old entry from its nodes before overwriting it', r17h),
 	('17.g', 'a channel leaving the graph is unlinked from the nodes of the stored entry, not of a caller-supplied ChannelInfo', r17g),
 	('17.a', 'channel_update: stored only past chain hash, htlc_max, capacity, strictly-newer timestamp (re-checked under the write lock), signature for the selected direction', r17a),
 	('17.b', 'signed entry points verify: signature passed on, announcements verified (4+1 signatures) before *_intern, pending messages replayed through verifying paths', r17b),
